@@ -83,7 +83,7 @@ def main():
         parts = []
         for x in used:
             n_tok = int(rng.integers(0, 4))
-            toks[x] = [f'{x}_{str(rng.choice(["v", "w1", "é", "10"]))}' for _ in range(n_tok)]
+            toks[x] = [f'{x}_{str(rng.choice(["v", "w1", "é", "10", "New\u00a0York", "a\u2003b", "x\ty", "p\u3000q", "m\x1fn"]))}' for _ in range(n_tok)]
             parts.append(' '.join([x] + toks[x]) + (' ' if rng.random() < 0.3 else ''))
         label = str(rng.choice(['1', '-1', '0']))
         line = label + (' ' + str(rng.choice(['0.5', "'tag"])) if rng.random() < 0.3 else '') + ' |' + '|'.join(parts) + '\n'
@@ -100,7 +100,7 @@ def main():
         exp_map, exp_float = {}, set()
         for i in range(int(rng.integers(1, 8))):
             fid = f'{chr(97 + i)}'
-            feat = f'feature{i}'
+            feat = str(rng.choice([f'feature{i}', f'user_id{i}', f'f_{i}_x']))       # feature names may contain underscores
             typ = str(rng.choice(['', 'f32', 'generic', 'i64']))
             rows.append(f'{fid},{feat}' + (f',{typ}' if typ else ''))
             exp_map[fid] = feat
@@ -126,10 +126,41 @@ def main():
             missing = sorted(set(exp_map) - set(mp))
             h.fail('parse_namespace.declared_mapping', {'lines': rows}, f'declared ids missing from the map: {missing}',
                    witness_class='namespace_two_column_underscore_id' if all('_' in m for m in missing) and set(mp) <= set(exp_map) and all(mp[k] == exp_map[k] for k in mp) else None)
+    # ---- the field-count rule of the streaming loop: rows with a wrong number of fields are skipped and counted, never repaired
+    import outrank.core_ranking as CR
+    from rank_common import InlinePool
+    seen_rows, infos = [], []
+    real_batch = CR.compute_batch_ranking
+
+    def rec(line_tmp_storage, numeric_column_types, args, cpu_pool, column_descriptions, logger, pbar):
+        seen_rows.extend([list(r) for r in line_tmp_storage])
+        return CR.BatchRankingSummary([('f1', 'label', 1.0)], {}), {}, {c: 100.0 for c in column_descriptions}, {c: 1.0 for c in column_descriptions}
+    CR.compute_batch_ranking = rec
+    try:
+        for data_source, delim in (('csv-raw', ','), ('ob-raw-dump', '\t')):
+            good = [['a%d' % i, 'b%d' % (i % 3), str(i % 2)] for i in range(6)]
+            bad = [['x', 'y'], ['x', 'y', 'z', 'w'], ['x', 'y', 'z', ''], ['', 'x', 'y', 'z'], ['x', 'y', '', 'z', '']]
+            order = [good[0], bad[2], good[1], bad[0], good[2], bad[3], good[3], bad[1], good[4], bad[4], good[5]]
+            with tempfile.TemporaryDirectory(dir=os.getcwd()) as d:
+                path = os.path.join(d, 'data.csv')
+                with open(path, 'w') as fh:
+                    fh.write(delim.join(['f1', 'f2', 'label']) + '\n' + ''.join(delim.join(r) + '\n' for r in order))
+                del seen_rows[:], infos[:]
+                logger = SimpleNamespace(info=lambda m, *a, **k: infos.append(str(m)), warning=lambda *a, **k: None)
+                args = SimpleNamespace(subsampling=1, minibatch_size=2, heuristic='MI-numba-randomized', data_source=data_source, disable_tqdm='True')
+                CR.estimate_importances_minibatches(path, ['f1', 'f2', 'label'], None, set(), args=args, cpu_pool=InlinePool(), delimiter=delim, logger=logger)
+            h.record(('fieldcount', data_source), True)
+            if seen_rows != good:
+                h.fail('streaming_loop.rows_with_a_wrong_field_count_are_skipped', {'data_source': data_source, 'lines': [delim.join(r) for r in order]},
+                       f'rows handed to the ranking step: {seen_rows}')
+    finally:
+        CR.compute_batch_ranking = real_batch
+        if os.path.exists('ranking_checkpoint_tmp.tsv'):
+            os.unlink('ranking_checkpoint_tmp.tsv')
     h.bounded_note('TSV / CSV / VW round trips through the real parsers and the dispatcher; namespace maps; the str laws used as axioms',
                    f'{n_rows} random rows per format (empty cells first/last/everywhere, delimiters and quotes inside cells, unicode)', h.evaluations)
     return h.finish()
 
 
 if __name__ == '__main__':
-    sys.exit(main())
+    sys.exit(common.run_main(main))
